@@ -173,6 +173,12 @@ def main(argv):
         return 3
     os.makedirs(os.path.join(VERIF, 'evidence'), exist_ok=True)
     os.makedirs(os.path.join(VERIF, 'replays'), exist_ok=True)
+    if tier == 'thorough':
+        # deeper tier: three times the solver budget per obligation, four times the wall-clock budget per unit,
+        # ten times the bounded evaluations
+        os.environ.setdefault('PYVC_Z3_TIMEOUT_MS', '180000')
+        os.environ.setdefault('PYVC_UNIT_BUDGET_S', '3600')
+        verify.Z3_TIMEOUT_MS = int(os.environ['PYVC_Z3_TIMEOUT_MS'])
     jobs = jobs_for(prop)
     nproc = int(os.environ.get('PYVC_JOBS', '16'))
     results = []
